@@ -20,6 +20,8 @@ func init() {
 }
 
 func runC14(r *Run, p *Prog) {
+	// L8: every accepted connection ends when the serving context is cancelled: the per-connection read is interruptible
+	siblingRules(r, p, "C17", []string{"D1", "D2", "D3", "D5"}, "L8")
 	ro := DiscoverRoles(p)
 	T, cg := ro.T, ro.CG
 	m := BuildServeModel(p, ro)
